@@ -81,7 +81,7 @@ func c12(c *Ctx) {
 		c.Has(pop, RetTerm(0, "shift("+s.ctl+")"))
 		ctl := s.ctl
 		toStream := Calls(push).Where("target is not the control queue", func(in ssa.Instruction) bool {
-			return Term(in.(ssa.CallInstruction).Common().Args[0]) != ctl
+			return Term(BaselineArgs(in.(ssa.CallInstruction).Common())[0]) != ctl
 		})
 		toCtl := Calls(push).ArgIs(0, s.ctl)
 		c.Reject(pushFn, toStream, "isControl($0)")
@@ -210,7 +210,7 @@ func popReturns(c *Ctx, pop string) {
 					c.Fail(rule, construct, InstrPos(in), "the consume result is returned with ok=true on a path where consume's own ok result is not known to be true")
 					continue
 				}
-				if len(call.Call.Args) < 2 || Term(call.Call.Args[1]) != "2147483647" {
+				if len(BaselineArgs(&call.Call)) < 2 || Term(BaselineArgs(&call.Call)[1]) != "2147483647" {
 					c.Fail(rule, construct, InstrPos(in), "consume is called with a byte budget other than math.MaxInt32")
 					continue
 				}
@@ -329,7 +329,7 @@ func consumeSplit(c *Ctx, name string) {
 				takes = append(takes, in)
 			}
 		}
-		good := len(takes) == 1 && Term(takes[0].(*ssa.Call).Call.Args[1]) == Term(s1.High) && Term(takes[0].(*ssa.Call).Call.Args[0]) == "&$r.stream.flow"
+		good := len(takes) == 1 && Term(BaselineArgs(&takes[0].(*ssa.Call).Call)[1]) == Term(s1.High) && Term(BaselineArgs(&takes[0].(*ssa.Call).Call)[0]) == "&$r.stream.flow"
 		c.Check(good, rule, name+": split path takes exactly k from the stream's flow", pos, "", fmt.Sprintf("%d take call(s) dominate the two-piece return, or the amount differs from the cut index %s", len(takes), Term(s1.High)))
 	}
 }
